@@ -764,34 +764,90 @@ class CWorld:
         return out
 
     def invariants(self, when, light=False, all_drivers=False):
-        want = self.check_views(when)
+        """Evaluate every oracle family; a failing family does not hide the others
+        (each property's check must see its own symptom). Raises the first violation with
+        the others attached as .also."""
+        found = []
+
+        def run(fn, *a, **k):
+            try:
+                return fn(*a, **k)
+            except Violation as v:
+                found.append(v.v)
+                return None
+
+        want = run(self.check_views, when)
+        if want is None:
+            want, _ = V.dump_tree(self.ref)
         heavy = self.drv[self.steps % len(self.drv)]
         for dv in self.drv:
             # the expensive oracles rotate over the drivers (each driver every 3rd step);
             # raw-tree TOC oracle, attached-set and user views run on all drivers every step
             full = (not light) and (all_drivers or dv is heavy)
-            raw, objs = self.toc_oracle(dv, when)
-            # the model's objects are exactly the stored objects
-            stored = sorted((o[2], o[0]) for o in objs.values())
-            exp = []
-            for p, m in self.meta.items():
-                kind = self.ref_kind(p)
-                for nm, o in m.items():
-                    md = (p.rstrip("/") + "/" + META_PREF) if kind == "g" else (T.Shadow.parent(p).rstrip("/") + "/" + META_PREF + p.rsplit("/", 1)[1])
-                    exp.append((md, f"{o['name']}__{'.'.join(map(str, o['version']))}"))
-            if stored != sorted(exp):
-                missing = sorted(set(exp) - set(stored))
-                extra = sorted(set(stored) - set(exp))
-                raise Violation("C07", "attached-set", f"[{dv.kind}] {when}: stored metadata objects differ from what was attached: missing {missing[:3]} extra {extra[:3]}", shape="missing" if missing else "extra")
+            res = run(self.toc_oracle, dv, when)
+            if res is None:
+                try:
+                    raw, _ = V.dump_tree(dv.raw)
+                except Exception:
+                    raw = None
+                objs = None
+            else:
+                raw, objs = res
+            if objs is not None:
+                run(self.check_attached_set, dv, objs, when)
             if full:
-                self.check_index_rebuilt(dv, when)
-                self.check_described(dv, raw, objs)
+                run(self.check_index_rebuilt, dv, when)
+                if objs is not None:
+                    run(self.check_described, dv, raw, objs)
                 for p in sorted(self.meta):
-                    self.check_meta_node(dv, p, full=True)
-                self.check_listings(dv, want)
-                self.check_packed(dv, raw)
-        # C09: metadata JSON per node identical on all drivers (stored bytes)
+                    if run(self.check_meta_node, dv, p, True) is None and found and found[-1]["prop"] == "C07":
+                        break
+                run(self.check_listings, dv, want)
+                if raw is not None:
+                    run(self.check_packed, dv, raw)
+                run(self.check_query_battery, dv)
+        if found:
+            v = Violation(found[0]["prop"], found[0]["oracle"], found[0]["detail"], found[0].get("shape", ""))
+            seen = {(found[0]["prop"], found[0]["oracle"])}
+            v.also = []
+            for f in found[1:]:
+                if (f["prop"], f["oracle"]) not in seen:
+                    seen.add((f["prop"], f["oracle"]))
+                    v.also.append(f)
+            raise v
         return want
+
+    def check_attached_set(self, dv, objs, when):
+        """the model's objects are exactly the stored objects (C07)"""
+        stored = sorted((o[2], o[0]) for o in objs.values())
+        exp = []
+        for p, m in self.meta.items():
+            kind = self.ref_kind(p)
+            for nm, o in m.items():
+                md = (p.rstrip("/") + "/" + META_PREF) if kind == "g" else (T.Shadow.parent(p).rstrip("/") + "/" + META_PREF + p.rsplit("/", 1)[1])
+                exp.append((md, f"{o['name']}__{'.'.join(map(str, o['version']))}"))
+        if stored != sorted(exp):
+            missing = sorted(set(exp) - set(stored))
+            extra = sorted(set(stored) - set(exp))
+            raise Violation("C07", "attached-set", f"[{dv.kind}] {when}: stored metadata objects differ from what was attached: missing {missing[:3]} extra {extra[:3]}", shape="missing" if missing else "extra")
+
+    def check_query_battery(self, dv):
+        """a few queries per step, compared with the brute-force scan of the model (C07)"""
+        names = sorted(set(o["name"] for m in self.meta.values() for o in m.values()))
+        cands = []
+        for nm in names[:3]:
+            cands.append(("/", nm, None))
+            for a in self.plugin_parent_path(nm, [o for m in self.meta.values() for o in m.values() if o["name"] == nm][0]["version"])[:-1]:
+                cands.append(("/", a.name, None))
+                cands.append(("/", a.name, tuple(a.version)))
+        starts = sorted(self.meta)[:2]
+        for st in starts:
+            for nm in names[:2]:
+                cands.append((st, nm, None))
+                cands.append((st, nm, (9, 0, 0)))
+        for st, nm, ver in cands[:10]:
+            self.check_query(dv, st, nm, ver, via="container" if (len(st) + len(nm)) % 2 else "group")
+            self.probe("queries_checked")
 
     def check_packed(self, dv, raw):
         for p, hx in self.packed.items():
@@ -1005,6 +1061,10 @@ class ContainerEngine:
                 v = dict(e.v)
                 v["step"] = len(log)
                 viol.append(v)
+                for o in getattr(e, "also", []):
+                    o = dict(o)
+                    o["step"] = len(log)
+                    viol.append(o)
             except SimRunaway as e:
                 viol.append({"prop": "C09", "oracle": "no-progress", "detail": str(e), "shape": "runaway", "step": len(log)})
             except env.HarnessError:
